@@ -26,6 +26,15 @@ Definition normal_logp (mu sigma x : R) : R := - (1 / 2) * ((x - mu) / sigma) ^ 
 (* Beta(alpha, beta) log-density up to its normaliser *)
 Definition beta_logkernel (al be x : R) : R := (al - 1) * ln x + (be - 1) * ln (1 - x).
 
+(* a user-supplied prior on the jitter or on an angle (the `s=<variable>` / pars={'omega': ..} options): the factors the
+   ln_prior column has to include besides the defaults *)
+Inductive xterm := XLogNormal (mu sigma : Q) | XNormal (mu sigma : Q).
+Definition xterm_logp (t : xterm) (x : R) : R :=
+  match t with
+  | XLogNormal mu sg => normal_logp (Q2R mu) (Q2R sg) (ln x) - ln x      (* pm.Lognormal: Normal in ln x, Jacobian 1/x *)
+  | XNormal mu sg => normal_logp (Q2R mu) (Q2R sg) x                      (* pm.Normal / TruncatedNormal up to its normaliser *)
+  end.
+
 (* Kipping (2013) eccentricity priors as documented *)
 Definition kipping_global : Q * Q := (867 # 1000, 303 # 100)%Q.
 Definition kipping_short : Q * Q := (697 # 1000, 327 # 100)%Q.
@@ -49,17 +58,25 @@ Definition normal_logp_rx (mu sigma x : rexpr) : rexpr :=
 Definition beta_logkernel_rx (al be x : Q) : rexpr :=
   RAdd (RMul (RQ (al - 1)%Q) (RLn (RQ x))) (RMul (RQ (be - 1)%Q) (RLn (RSub (RC 1 1) (RQ x)))).
 
+Definition xterm_rx (t : xterm) (x : Q) : rexpr :=
+  match t with
+  | XLogNormal mu sg => RSub (normal_logp_rx (RQ mu) (RQ sg) (RLn (RQ x))) (RLn (RQ x))
+  | XNormal mu sg => normal_logp_rx (RQ mu) (RQ sg) (RQ x)
+  end.
+
 (* ---- one row of prior.sample(..., return_logprobs=True): the joint log-density up to a constant ---- *)
 Record prior_cfg := mk_pcfg {
   pc_a : Q; pc_b : Q;                       (* period prior bounds, in the prior's period unit *)
   pc_ecc : Q * Q;                           (* Beta parameters of the eccentricity prior *)
   pc_sK0 : Q; pc_P0 : Q; pc_maxK : Q;       (* K prior (P0 in the prior's period unit) *)
-  pc_v : list (Q * Q)                       (* (mu, sigma) of v0, v1, .. *)
+  pc_v : list (Q * Q);                      (* (mu, sigma) of v0, v1, .. *)
+  pc_x : list xterm                         (* user-supplied priors on s / omega / M0 (empty for the defaults: constant factors) *)
 }.
-Record prior_row := mk_prow { pr_P : Q; pr_e : Q; pr_K : Q; pr_v : list Q }.
+Record prior_row := mk_prow { pr_P : Q; pr_e : Q; pr_K : Q; pr_v : list Q; pr_x : list Q (* values of the pc_x parameters *) }.
 Definition sum_rx (l : list rexpr) : rexpr := fold_right RAdd (RC 0 1) l.
 Definition row_logdens_rx (c : prior_cfg) (linear : bool) (r : prior_row) : option rexpr :=
-  let nl := RAdd (ul_logp_rx (pc_a c) (pc_b c) (pr_P r)) (beta_logkernel_rx (fst (pc_ecc c)) (snd (pc_ecc c)) (pr_e r)) in
+  let nl := RAdd (RAdd (ul_logp_rx (pc_a c) (pc_b c) (pr_P r)) (beta_logkernel_rx (fst (pc_ecc c)) (snd (pc_ecc c)) (pr_e r)))
+                 (sum_rx (map (fun tx => xterm_rx (fst tx) (snd tx)) (combine (pc_x c) (pr_x r)))) in
   if linear then
     match fcm_sigma_rx (pc_sK0 c) (pc_P0 c) (pc_maxK c) (pr_P r) (pr_e r) with
     | Some sg =>
